@@ -1,38 +1,152 @@
-//! C05 (+C02 b/c) — the real registry (lib.rs) against a list model, sequentially.
+//! C05 (+ clauses of C02) — the real registry (signal-hook-registry/src/lib.rs)
+//! against a list model: one operation from a symbolic valid state, and
+//! symbolic histories from the initial state.
 use crate::common::*;
 use libc::{c_int, siginfo_t, SIGUSR1, SIGUSR2};
-use signal_hook_registry::{register, register_sigaction, unregister, SigId};
+use signal_hook_registry::{register, register_sigaction, unregister, unregister_signal, SigId};
 
-pub const NLOG: usize = 8;
-#[allow(non_snake_case)]
-pub mod L {
-    use super::NLOG;
-    pub static mut log: [u8; NLOG] = [0; NLOG]; // action tags in invocation order
-    pub static mut n: usize = 0;
+pub const SA: c_int = SIGUSR1;
+pub const SB: c_int = SIGUSR2;
+pub const WANT_FLAGS: c_int = libc::SA_RESTART | libc::SA_SIGINFO;
+
+/// List model of one signal's slot.
+#[derive(Copy, Clone)]
+pub struct MSlot {
+    pub present: bool,
+    pub n: usize,
+    pub ids: [u128; 3],
+    pub tags: [u8; 3],
 }
-pub fn hit(tag: u8) {
-    unsafe {
-        if L::n < NLOG {
-            L::log[L::n] = tag;
+pub const MEMPTY: MSlot = MSlot {
+    present: false,
+    n: 0,
+    ids: [0; 3],
+    tags: [0; 3],
+};
+#[derive(Copy, Clone)]
+pub struct Model {
+    pub a: MSlot,
+    pub b: MSlot,
+    pub next_id: u128,
+}
+impl MSlot {
+    pub fn push(&mut self, id: u128, tag: u8) {
+        self.ids[self.n] = id;
+        self.tags[self.n] = tag;
+        self.n += 1;
+        self.present = true;
+    }
+    pub fn remove(&mut self, id: u128) -> bool {
+        let mut found = false;
+        let mut i = 0;
+        while i < 3 {
+            if i < self.n && !found && self.ids[i] == id {
+                found = true;
+            }
+            if found && i + 1 < 3 {
+                self.ids[i] = self.ids[i + 1];
+                self.tags[i] = self.tags[i + 1];
+            }
+            i += 1;
         }
-        L::n += 1;
+        if found {
+            self.n -= 1;
+        }
+        found
     }
 }
-pub fn clear_log() {
-    unsafe { L::n = 0 }
+
+/// Does the published snapshot agree with the model for `sig`?
+pub fn agrees(sig: c_int, m: &MSlot) -> bool {
+    let v = reg::view(sig);
+    let mut ok = v.present == m.present && (!m.present || v.n == m.n);
+    let mut i = 0;
+    while i < 3 {
+        if m.present && i < m.n && v.ids[i] != m.ids[i] {
+            ok = false;
+        }
+        i += 1;
+    }
+    ok
 }
 
-/// One kernel delivery of `sig` through whatever is installed (model).
-pub fn deliver(sig: c_int) {
-    unsafe {
-        let h = K::disp[sig as usize].handler;
-        if h == reg::handler_addr() {
-            let mut info: siginfo_t = core::mem::zeroed();
-            info.si_signo = sig;
-            vshim::delivery_enter();
-            reg::call_handler(sig, &mut info, core::ptr::null_mut());
-            vshim::delivery_exit();
+pub fn action(tag: u8) -> impl Fn() + Send + Sync + 'static {
+    move || hit(tag)
+}
+
+/// Publish a symbolic valid registry state and return its model.
+/// <= 2 actions on SA (tags 1,2), <= 1 action on SB (tag 3); ids ascending and < next_id.
+#[cfg(kani)]
+pub fn any_state() -> Model {
+    reg::init_globals();
+    let mut m = Model {
+        a: MEMPTY,
+        b: MEMPTY,
+        next_id: 1,
+    };
+    let a_present: bool = kani::any();
+    let b_present: bool = kani::any();
+    let na: usize = kani::any();
+    let nb: usize = kani::any();
+    kani::assume(na <= 2 && nb <= 1);
+    let id1: u128 = kani::any();
+    let id2: u128 = kani::any();
+    let id3: u128 = kani::any();
+    let next: u128 = kani::any();
+    kani::assume(id1 >= 1 && id1 < id2 && id2 < next && id3 >= 1 && id3 < next && id3 != id1 && id3 != id2);
+    kani::assume(next < u128::MAX - 4);
+    let mut b = reg::StateBuilder::new();
+    if a_present {
+        b.slot(SA, 0, 0);
+        m.a.present = true;
+        install(SA);
+        if na >= 1 {
+            b.action(SA, id1, reg::action_from(|_| hit(1)));
+            m.a.push(id1, 1);
         }
+        if na >= 2 {
+            b.action(SA, id2, reg::action_from(|_| hit(2)));
+            m.a.push(id2, 2);
+        }
+    }
+    if b_present {
+        b.slot(SB, 0, 0);
+        m.b.present = true;
+        install(SB);
+        if nb >= 1 {
+            b.action(SB, id3, reg::action_from(|_| hit(3)));
+            m.b.push(id3, 3);
+        }
+    }
+    b.publish(next);
+    m.next_id = next;
+    m
+}
+
+/// The kernel-side fact that goes with a slot: the library's handler is installed.
+pub fn install(sig: c_int) {
+    unsafe {
+        K::disp[sig as usize].handler = reg::handler_addr();
+        K::disp[sig as usize].flags = WANT_FLAGS;
+    }
+}
+pub fn installed(sig: c_int) -> bool {
+    unsafe { K::disp[sig as usize].handler == reg::handler_addr() && K::disp[sig as usize].flags == WANT_FLAGS }
+}
+
+/// Log must be exactly the model's tags of that slot, in order.
+pub fn log_is(m: &MSlot) -> bool {
+    unsafe {
+        let want = if m.present { m.n } else { 0 };
+        let mut ok = L::n == want;
+        let mut i = 0;
+        while i < 3 {
+            if i < want && i < L::n && L::log[i] != m.tags[i] {
+                ok = false;
+            }
+            i += 1;
+        }
+        ok
     }
 }
 
@@ -40,61 +154,203 @@ pub fn deliver(sig: c_int) {
 pub mod proofs {
     use super::*;
 
+    /// One register() on either signal from any valid state.
     #[kani::proof]
-    #[kani::unwind(6)]
-    pub fn c05_dbg1() {
-        let r = unsafe { register(SIGUSR1, || hit(1)) };
-        let good = r.is_ok();
-        core::mem::forget(r);
-        assert!(good, "C05: registering a catchable signal failed");
-    }
-    fn one_slot() {
-        reg::init_globals();
-        let mut b = reg::StateBuilder::new();
-        b.slot(SIGUSR1, 0, 0);
-        b.action(SIGUSR1, 1, reg::action_from(|_| hit(1)));
-        b.publish(2);
-    }
-    #[kani::proof]
-    #[kani::unwind(6)]
-    pub fn c05_dbgP() {
-        reg::init_globals();
-        let n = reg::clone_current();
-        assert!(n == 0, "C05: p");
-    }
-    #[kani::proof]
-    #[kani::unwind(6)]
-    pub fn c05_dbg2() {
-        reg::init_globals();
-        let a = ok(unsafe { register(SIGUSR1, || hit(1)) });
-        assert!(a.is_some(), "C05: registering a catchable signal failed");
-        deliver(SIGUSR1);
-        unsafe { assert!(L::n == 1, "C05: x") };
+    #[kani::unwind(7)]
+    pub fn c05_step_register() {
+        let mut m = any_state();
+        let on_a: bool = kani::any();
+        let sig = if on_a { SA } else { SB };
+        let had_slot = if on_a { m.a.present } else { m.b.present };
+        kani::assume(if on_a { m.a.n < 3 } else { m.b.n < 3 });
+        let calls0 = unsafe { K::sigaction_sets };
+        let swaps0 = vshim::ptr_swaps();
+        let r = ok(unsafe { register(sig, || hit(4)) });
+        assert!(r.is_some(), "C05: registering a catchable signal failed");
+        let (rsig, rid) = reg::sigid_parts(r.unwrap());
+        assert!(rsig == sig && rid == m.next_id, "C05: the id handed out is not a fresh one (ids must never repeat)");
+        if on_a {
+            m.a.push(rid, 4);
+        } else {
+            m.b.push(rid, 4);
+        }
+        m.next_id += 1;
+        assert!(agrees(SA, &m.a) && agrees(SB, &m.b), "C05: register changed something other than appending its action to its signal");
+        assert!(reg::next_id() == m.next_id, "C05: the id counter did not advance by exactly one");
+        assert!(installed(sig), "C05: the library's handler with SA_RESTART|SA_SIGINFO is not the disposition after register");
+        let calls = unsafe { K::sigaction_sets } - calls0;
+        assert!(calls == if had_slot { 0 } else { 1 }, "C05: sigaction is called exactly once per signal, at the first registration");
+        let swaps = vshim::ptr_swaps() - swaps0;
+        assert!(swaps == if had_slot { 1 } else { 2 }, "C02: a mutator publishes more than one snapshot (or none)");
+        kani::cover!(!had_slot && !on_a, "first registration of the second signal");
+        kani::cover!(had_slot && on_a && m.a.n == 3, "third action on one signal");
     }
 
+    /// One unregister() of a live, stale or never-issued id from any valid state.
     #[kani::proof]
-    #[kani::unwind(6)]
-    pub fn c05_basic_history() {
-        let a = ok(unsafe { register(SIGUSR1, || hit(1)) });
-        let b = ok(unsafe { register(SIGUSR1, || hit(2)) });
-        let c = ok(unsafe { register(SIGUSR2, || hit(3)) });
+    #[kani::unwind(7)]
+    pub fn c05_step_unregister() {
+        let mut m = any_state();
+        let sig: c_int = if kani::any() { SA } else { SB };
+        let id: u128 = kani::any();
+        let swaps0 = vshim::ptr_swaps();
+        let sets0 = unsafe { K::sigaction_sets };
+        let r = unregister(reg::make_sigid(sig, id));
+        let expect = if sig == SA { m.a.remove(id) } else { m.b.remove(id) };
+        assert!(r == expect, "C05: unregister returned true for an id that is not registered (or false for a live one)");
+        assert!(agrees(SA, &m.a) && agrees(SB, &m.b), "C05: unregister changed something other than removing exactly that action");
+        assert!(reg::next_id() == m.next_id, "C05: unregister changed the id counter (ids could be handed out twice)");
+        assert!(unsafe { K::sigaction_sets } == sets0, "C05: unregister changed the signal's disposition");
+        assert!((!m.a.present || installed(SA)) && (!m.b.present || installed(SB)), "C05: the handler is no longer installed after unregister");
+        let swaps = vshim::ptr_swaps() - swaps0;
+        assert!(swaps == if r { 1 } else { 0 }, "C02: unregister publishes exactly one snapshot iff it removed something");
+        kani::cover!(r && sig == SA && m.a.n == 1, "removed one of two");
+        kani::cover!(!r && id >= m.next_id, "never-issued id");
+        kani::cover!(!r && id < m.next_id, "stale id");
+    }
+
+    /// unregister_signal() from any valid state.
+    #[kani::proof]
+    #[kani::unwind(7)]
+    pub fn c05_step_unregister_signal() {
+        let mut m = any_state();
+        let sig: c_int = if kani::any() { SA } else { SB };
+        let sets0 = unsafe { K::sigaction_sets };
+        #[allow(deprecated)]
+        let r = unregister_signal(sig);
+        let slot = if sig == SA { &mut m.a } else { &mut m.b };
+        let expect = slot.present && slot.n > 0;
+        slot.n = 0;
+        assert!(r == expect, "C05: unregister_signal's result does not say whether it removed anything");
+        assert!(agrees(SA, &m.a) && agrees(SB, &m.b), "C05: unregister_signal touched another signal or left actions behind");
+        assert!(reg::next_id() == m.next_id, "C05: unregister_signal changed the id counter");
+        assert!(unsafe { K::sigaction_sets } == sets0, "C05: unregister_signal changed the disposition");
+        kani::cover!(r, "removed something");
+        kani::cover!(!r, "nothing to remove");
+    }
+
+    /// One delivery from any valid state runs exactly the signal's actions, in order.
+    #[kani::proof]
+    #[kani::unwind(7)]
+    pub fn c05_step_deliver() {
+        let m = any_state();
+        let sig: c_int = if kani::any() { SA } else { SB };
+        let slot = if sig == SA { m.a } else { m.b };
+        kani::assume(slot.present);
+        let loads0 = vshim::ops(vshim::OP_LOAD);
+        let rmw0 = vshim::ops(vshim::OP_RMW);
+        let swaps0 = vshim::ptr_swaps();
+        deliver(sig);
+        assert!(log_is(&slot), "C02: a delivery did not run exactly its signal's actions once each in registration order");
+        assert!(vshim::ops(vshim::OP_LOAD) - loads0 == 4 && vshim::ops(vshim::OP_RMW) - rmw0 == 4,
+            "C02: the dispatcher does not take exactly one read section on each of the two snapshots");
+        assert!(vshim::ptr_swaps() == swaps0, "C05: a delivery changed the registry");
+        assert!(agrees(SA, &m.a) && agrees(SB, &m.b), "C05: a delivery changed the registry");
+        kani::cover!(slot.n == 2, "two actions ran");
+        kani::cover!(slot.n == 0, "slot without actions");
+    }
+
+    /// A fixed history with symbolic parameters (quick tier): three registrations
+    /// on two signals, deliveries, an unregister of a symbolic id, removal by signal.
+    #[kani::proof]
+    #[kani::unwind(7)]
+    pub fn c05_q_history() {
+        reg::init_globals();
+        let mut m = Model { a: MEMPTY, b: MEMPTY, next_id: 1 };
+        let a = ok(unsafe { register(SA, || hit(1)) });
+        let b = ok(unsafe { register_sigaction(SA, |_| hit(2)) });
+        let c = ok(unsafe { register(SB, || hit(3)) });
         assert!(a.is_some() && b.is_some() && c.is_some(), "C05: registering a catchable signal failed");
-        let (a, b, c) = (a.unwrap(), b.unwrap(), c.unwrap());
-        deliver(SIGUSR1);
-        unsafe {
-            assert!(L::n == 2 && L::log[0] == 1 && L::log[1] == 2, "C05: delivery did not run the signal's actions once each in registration order");
-        }
+        let (ida, idb, idc) = (reg::sigid_parts(a.unwrap()).1, reg::sigid_parts(b.unwrap()).1, reg::sigid_parts(c.unwrap()).1);
+        assert!(ida == 1 && idb == 2 && idc == 3, "C05: the id handed out is not a fresh one (ids must never repeat)");
+        m.a.push(ida, 1);
+        m.a.push(idb, 2);
+        m.b.push(idc, 3);
+        m.next_id = 4;
+        deliver(SA);
+        assert!(log_is(&m.a), "C02: a delivery did not run exactly its signal's actions once each in registration order");
         clear_log();
-        assert!(unregister(a), "C05: unregister of a live id returned false");
-        assert!(!unregister(a), "C05: unregister of a stale id returned true");
-        deliver(SIGUSR1);
-        deliver(SIGUSR2);
-        unsafe {
-            assert!(L::n == 2 && L::log[0] == 2 && L::log[1] == 3, "C05: removal changed other actions");
-            assert!(K::disp[SIGUSR1 as usize].handler == reg::handler_addr(), "C05: handler not installed");
-            assert!(K::disp[SIGUSR1 as usize].flags == libc::SA_RESTART | libc::SA_SIGINFO, "C05: flags are not SA_RESTART|SA_SIGINFO");
+        // any id at all, paired with either signal
+        let id: u128 = kani::any();
+        let on_a: bool = kani::any();
+        let r = unregister(reg::make_sigid(if on_a { SA } else { SB }, id));
+        let e = if on_a { m.a.remove(id) } else { m.b.remove(id) };
+        assert!(r == e, "C05: unregister returned true for an id that is not registered (or false for a live one)");
+        assert!(!unregister(reg::make_sigid(if on_a { SA } else { SB }, id)), "C05: unregister of a stale id returned true");
+        assert!(agrees(SA, &m.a) && agrees(SB, &m.b), "C05: unregister changed something other than removing exactly that action");
+        deliver(SA);
+        assert!(log_is(&m.a), "C05: after a removal the signal's remaining actions do not run exactly once in order");
+        clear_log();
+        deliver(SB);
+        assert!(log_is(&m.b), "C05: removal on one signal changed what another signal does");
+        clear_log();
+        // a later registration gets a fresh id although one was freed
+        let d = ok(unsafe { register(SA, || hit(4)) });
+        assert!(d.is_some(), "C05: registering a catchable signal failed");
+        assert!(reg::sigid_parts(d.unwrap()).1 == 4, "C05: the id handed out is not a fresh one (ids must never repeat)");
+        m.a.push(4, 4);
+        #[allow(deprecated)]
+        let r2 = unregister_signal(SB);
+        assert!(r2 == (m.b.n > 0), "C05: unregister_signal's result does not say whether it removed anything");
+        m.b.n = 0;
+        assert!(agrees(SA, &m.a) && agrees(SB, &m.b), "C05: unregister_signal touched another signal or left actions behind");
+        deliver(SB);
+        assert!(unsafe { L::n } == 0, "C05: an action ran after its signal's actions had been removed");
+        assert!(installed(SA) && installed(SB), "C05: a taken-over signal lost the library's handler (with SA_RESTART|SA_SIGINFO)");
+        kani::cover!(r && on_a && id == 1, "removed the first action");
+        kani::cover!(!r, "nothing removed");
+    }
+
+    /// Symbolic history of three operations from the initial state.
+    #[kani::proof]
+    #[kani::unwind(7)]
+    pub fn c05_history3() {
+        reg::init_globals();
+        let mut m = Model { a: MEMPTY, b: MEMPTY, next_id: 1 };
+        let mut step = 0;
+        let mut first_a: u128 = 0;
+        let mut regs = 0;
+        while step < 3 {
+            let op: u8 = kani::any();
+            kani::assume(op < 5);
+            if op == 0 && m.a.n < 3 {
+                let r = ok(unsafe { register(SA, || hit(1)) });
+                assert!(r.is_some(), "C05: registering a catchable signal failed");
+                let (_, id) = reg::sigid_parts(r.unwrap());
+                assert!(id == m.next_id, "C05: the id handed out is not a fresh one (ids must never repeat)");
+                if m.a.n == 0 { first_a = id; }
+                m.a.push(id, 1);
+                m.next_id += 1;
+                regs += 1;
+            } else if op == 1 && m.b.n < 3 {
+                let r = ok(unsafe { register_sigaction(SB, |_| hit(3)) });
+                assert!(r.is_some(), "C05: registering a catchable signal failed");
+                let (_, id) = reg::sigid_parts(r.unwrap());
+                assert!(id == m.next_id, "C05: the id handed out is not a fresh one (ids must never repeat)");
+                m.b.push(id, 3);
+                m.next_id += 1;
+                regs += 1;
+            } else if op == 2 {
+                // the first id ever issued for SA: live or stale by now
+                let id = if first_a != 0 { first_a } else { 7 };
+                let r = unregister(reg::make_sigid(SA, id));
+                let e = m.a.remove(id);
+                assert!(r == e, "C05: unregister returned true for an id that is not registered (or false for a live one)");
+            } else if op == 3 {
+                #[allow(deprecated)]
+                let r = unregister_signal(SA);
+                assert!(r == (m.a.present && m.a.n > 0), "C05: unregister_signal's result does not say whether it removed anything");
+                m.a.n = 0;
+            } else if op == 4 && m.a.present {
+                clear_log();
+                deliver(SA);
+                assert!(log_is(&m.a), "C02: a delivery did not run exactly its signal's actions once each in registration order");
+            }
+            assert!(agrees(SA, &m.a) && agrees(SB, &m.b), "C05: the registry diverged from the per-signal list model");
+            assert!((!m.a.present || installed(SA)) && (!m.b.present || installed(SB)), "C05: a taken-over signal lost the library's handler");
+            step += 1;
         }
-        kani::cover!(true, "history ran");
+        kani::cover!(regs == 3, "three registrations");
+        kani::cover!(regs == 1 && m.a.present && m.a.n == 0, "registered then removed");
     }
 }
-
